@@ -11,7 +11,7 @@ import (
 // Property C15 (promise events): one-shot events run every callback exactly once whether it was registered
 // before, during or after Trigger.
 
-//verif:h prop=C15 preempt=2/3 cover=done,unsubscribed runs=5000000 timeout=250/900
+//verif:h prop=C15 preempt=2/3 cover=done,unsubscribed runs=5000000 timeout=900/900
 func H_C15_promise() {
 	withArg := verifrt.Choose("withArg", 2) == 1
 	var calls [3]atomic.Int32
